@@ -83,6 +83,21 @@ def step (s : St) (ws : List String) : St × String :=
     match id.toNat? >>= s.block?, s.vw with
     | some b, some v => let v' := acceptHistorical v b; ({ s with vw := some v' }, dump s v')
     | _, _ => (s, "bad-op")
+  -- quiet variants for the chain-level tie (real chain.Processor / Accepter: `seen` is not observable)
+  | ["new!", id] =>
+    match id.toNat? >>= s.block? with
+    | some b => ({ s with vw := some (newWindow s.index s.W s.fuel b) }, "ok")
+    | none => (s, "bad-op")
+  | ["complete!", id] =>
+    match id.toNat? >>= s.block?, s.vw with
+    | some b, some v =>
+      let r := populate s.index s.W v s.fuel b
+      ({ s with vw := some r.1 }, s!"full={r.2.2}")
+    | _, _ => (s, "bad-op")
+  | ["accept!", id] =>
+    match id.toNat? >>= s.block?, s.vw with
+    | some b, some v => ({ s with vw := some (accept v b) }, "ok")
+    | _, _ => (s, "bad-op")
   | ["verify", id] =>
     match id.toNat? >>= s.block?, s.vw with
     | some b, some v => (s, (verifyERP s.index s.W v s.fuel b).str)
